@@ -196,6 +196,8 @@ pub struct Analyzer {
     pub session: CompilerSession,
     pub dir: PathBuf,
     uses: usize,
+    /// companion files installed as overlays; re-installed whenever the session is replaced
+    installed: std::collections::BTreeMap<String, String>,
 }
 
 impl Analyzer {
@@ -203,7 +205,7 @@ impl Analyzer {
     pub fn new(tag: &str) -> Self {
         let dir = PathBuf::from(WORK).join("ov").join(format!("{}_{}", std::process::id(), tag));
         std::fs::create_dir_all(&dir).expect("create overlay dir");
-        Analyzer { session: CompilerSession::default(), dir, uses: 0 }
+        Analyzer { session: CompilerSession::default(), dir, uses: 0, installed: Default::default() }
     }
     pub fn path(&self, name: &str) -> PathBuf {
         self.dir.join(name)
@@ -218,7 +220,7 @@ impl Analyzer {
         self.uses += 1;
         if self.uses % 400 == 0 {
             // bound the memo tables of the long-lived session
-            self.session = CompilerSession::default();
+            self.reset_session();
         }
         let path = self.path(name);
         self.touch(&path);
@@ -235,7 +237,7 @@ impl Analyzer {
             }
             | Err(panic) => {
                 // a panic may leave the session poisoned: start over
-                self.session = CompilerSession::default();
+                self.reset_session();
                 (Verdict::Panic { panic }, None)
             }
         }
@@ -245,6 +247,15 @@ impl Analyzer {
         let path = self.path(name);
         self.touch(&path);
         self.session.set_overlay(&path, text.to_string()).expect("set_overlay");
+        self.installed.insert(name.to_string(), text.to_string());
+    }
+    /// Start over with a fresh session that sees the same installed files.
+    pub fn reset_session(&mut self) {
+        self.session = CompilerSession::default();
+        for (name, text) in self.installed.clone() {
+            let path = self.path(&name);
+            self.session.set_overlay(&path, text).expect("set_overlay");
+        }
     }
     pub fn cleanup(&self) {
         let _ = std::fs::remove_dir_all(&self.dir);
